@@ -67,6 +67,7 @@ ACTIONS = {
     'incr': lambda t: 'a[i] += 3; write(a[i]);' if t in ('int', 'byte') else None,
     'own': lambda t: 'write(own(n));',
     'writes': lambda t: "write(n); write('c'); write(n > 0); write(\"str\"); writeln(-n);",
+    'writemin': lambda t: "int mn = 1; while (mn > 0) { mn = mn * 2; } write(mn);",
     'writearr': lambda t: 'write(a);' if t == 'byte' else None,
     'rec': lambda t: 'write(rec(n));',
     'trystop': lambda t: "try { write('t'); !d1(n); write('y'); } stop { write('s'); }",
@@ -90,7 +91,7 @@ def programs():
                     continue
                 if an == 'nothing' and kind != 'littemp':
                     continue
-                if kind != 'none' and si == 1 and an not in ('index', 'writes', 'nothing'):
+                if kind != 'none' and si == 1 and an not in ('index', 'writes', 'writemin', 'nothing'):
                     continue        # middle scalar variant only with the two cheapest actions
                 body = f"{sc} {decl} write('<'); {act} write('>'); {dump} {scd}"
                 src = PRE + f'empty @is_you(int n, int i) {{ {body} }}\n'
@@ -141,7 +142,7 @@ def coverage(total, tier):
     cov = std_coverage(total, {
         'M': f'{len(programs())} programs = scalar frames (0,1,3 scalars) x arrays (none; literal and VLA of int/byte/bool/string; literals whose '
              'elements are calls) x actions (indexed store/read, compound store, by-reference callee, callee with its own array, every '
-             'write overload, recursion, try/stop with defeat two calls deep, nested literal with call elements)',
+             'write overload, write of the most negative integer as the deepest call, recursion, try/stop with defeat two calls deep, nested literal with call elements)',
         'inputs': '(length n, index i) pairs incl. negative, zero, last, one past, far out of range: ' + str(INPUTS_T if tier == 'thorough' else INPUTS_Q),
         'stack_sizes': 'every size from 1 word up to S_min+8, plus 256 and 1024 words',
         'word_sizes': '2,3,4,8' if tier == 'thorough' else '2 plus one of 3,4,8 per program',
